@@ -27,6 +27,12 @@ separated by `;`, a list group is `nil`, `e` (empty, non-nil) or integers.
    append v… | prepend v… | get I | remove I | pop | shift | sub A B | subset A B | len
    prependw A N   (`f.Prepend(f.Values[A:A+N]...)`: the argument is a window of the receiver's own array)
    prependc A N   (the same, window anywhere inside the capacity)
+   prependk A N K (`f.Prepend(f.Values[a:a+n:k]...)`: window anywhere inside the capacity with its own
+                   CAPACITY: a = A mod (cap+1), n = min N (cap-a), k = a+n + K mod (cap-a-n+1))
+   appendk A N K  (`f.Append(f.Values[a:a+n:k]...)`, same reduction)
+   hold A N K     (the harness keeps the handle f.Values[a:a+n:k]; no effect on the receiver)
+   prependh A N K / appendh A N K  (the kept handle when the receiver still has the same array — then it
+                   IS the window (a, n, k) of the current array — else a fresh window (a, n, k))
    appendn K V0 | prependn K V0   (the K values V0, V0+1, …)     popn K | shiftn K   (K times Pop / Shift:
    answer = sum of the returned values and number of successes)
  every answer ends with `| len cap [backing array]`.
@@ -261,6 +267,20 @@ def flexStep (c : Bool) (f : Flex) (ts : List String) : Option (Option (Flex × 
       let n' := min n (f.cap - a')
       some ((f.prependWin a' n').map fun f' => (f', s!"ok | {showFlex c f'}"))
     | _, _ => none
+  | [op, a, n, k] =>
+    -- window `(a, n, k)` of the receiver's own array reduced into the capacity
+    match a.toNat?, n.toNat?, k.toNat? with
+    | some a, some n, some k =>
+      let a' := a % (f.cap + 1)
+      let n' := min n (f.cap - a')
+      let k' := a' + n' + k % (f.cap - a' - n' + 1)
+      if op == "prependk" || op == "prependh" then
+        some ((f.prependWin3 a' n' k').map fun f' => (f', s!"ok | {showFlex c f'}"))
+      else if op == "appendk" || op == "appendh" then
+        some ((f.appendWin3 goGrow a' n' k').map fun f' => (f', s!"ok | {showFlex c f'}"))
+      else if op == "hold" then some (some (f, "ok"))
+      else none
+    | _, _, _ => none
   | ["popn", k] =>
     match k.toNat? with
     | some k => some ((repeatRemove (Flex.popG M) k f 0 0).map fun (f', sum, n) => (f', s!"{sum} {n} | {showFlex c f'}"))
